@@ -15,7 +15,8 @@ run=$VERIF/build/run-$$
 mkdir -p "$run"
 trap 'rm -rf "$run"' EXIT
 
-if [ ! -x "$VERIF/bin/overlaygen" ]; then
+if [ ! -x "$VERIF/bin/overlaygen" ] || [ -n "$(find "$VERIF/tools/overlaygen" -name "*.go" -newer "$VERIF/bin/overlaygen" 2>/dev/null)" ]; then
+  mkdir -p "$VERIF/bin"
   (cd "$VERIF/tools" && GOTOOLCHAIN=local go build -o "$VERIF/bin/overlaygen" ./overlaygen) || { echo "HARNESS-ERROR cannot build overlaygen"; exit 2; }
 fi
 goroot=$(cd "$REPO" && go env GOROOT) || { echo "HARNESS-ERROR go env failed"; exit 2; }
